@@ -56,4 +56,8 @@ def swapBoundOK (double toRowan : Bool) (X1 Y1 X2 Y2 x : Nat) (r f : Dec) (y : N
   else
     decide ((y : Rat) ≤ adjustedQ toRowan X1 x Y1 r * (1 - decToRat f) + 1)
 
+/-- the output of a successful swap is strictly less than the pool's BALANCE of the output token (the coins
+    the pool really holds — not its pricing depth, which includes margin liabilities) -/
+def belowBalanceOK (y balance : Nat) : Bool := decide (y < balance)
+
 end Sif.Spec.C03
